@@ -279,7 +279,10 @@ def expected_shape(world: World, entry: str, a: dict):
     if entry == "gen_empi_seqs":
         return [[("empi", V[i], n) for n in ns] for i, ns in zip(a["vs"], a["list_num_sums"])]
     if entry == "mult_sampling":
-        return [("counts", V[a["v"]], a["num"]) for _ in range(a["size"])]
+        # the distribution that is sampled is the object's own `ps`: the constructor documents that entries below eps_zero
+        # (1e-8 by default) are treated as zero and the rest renormalised
+        ps = np.array(MultinomialDistribution(np.array(V[a["v"]]), shape=(len(V[a["v"]]),)).ps, dtype=np.float64)
+        return [("counts", ps, a["num"]) for _ in range(a["size"])]
     if entry.startswith("exp_"):
         ps = [np.array(p, dtype=np.float64) for p in world.exp.calc_prob_dists()]
         if entry == "exp_data":
